@@ -253,9 +253,23 @@ var c07Type = map[string]midi.Type{"noteon": midi.NoteOnMsg, "noteoff": midi.Not
 
 // loopback port (drivers/testdrv + midi.ListenTo), opened once per process
 type loopback struct {
-	out  drivers.Out
-	got  [][]byte
-	fail string
+	out    drivers.Out
+	in     drivers.In
+	sendTo func(midi.Message) error // the function midi.SendTo returns, kept for the whole process
+	stop   func()
+	n      int
+	got    [][]byte
+	fail   string
+}
+
+func (l *loopback) listen() {
+	stop, err := midi.ListenTo(l.in, func(m midi.Message, ts int32) {
+		l.got = append(l.got, append([]byte(nil), m...))
+	}, midi.UseSysEx(), midi.UseTimeCode(), midi.UseActiveSense())
+	if err != nil {
+		l.fail = "cannot listen: " + err.Error()
+	}
+	l.stop = stop
 }
 
 var lb *loopback
@@ -276,13 +290,14 @@ func getLoopback() *loopback {
 	if err := outs[0].Open(); err != nil {
 		l.fail = "cannot open the out port: " + err.Error()
 	}
-	_, err := midi.ListenTo(ins[0], func(m midi.Message, ts int32) {
-		l.got = append(l.got, append([]byte(nil), m...))
-	}, midi.UseSysEx(), midi.UseTimeCode(), midi.UseActiveSense())
-	if err != nil {
-		l.fail = "cannot listen: " + err.Error()
-	}
+	l.in = ins[0]
+	l.listen()
 	l.out = outs[0]
+	if st, err := midi.SendTo(outs[0]); err == nil {
+		l.sendTo = st
+	} else if l.fail == "" {
+		l.fail = "midi.SendTo: " + err.Error()
+	}
 	lb = l
 	return l
 }
@@ -292,9 +307,27 @@ func (l *loopback) send(msg []byte) (got [][]byte, problem string) {
 	if l.fail != "" {
 		return nil, l.fail
 	}
+	// the sender and the listener have a life of their own: every other message goes through the function midi.SendTo
+	// returned at start, and now and then the listener is replaced by a new one before the message is sent (the
+	// previous message, often of the same status, was seen by the old listener only)
+	l.n++
+	if l.n%5 == 0 && l.stop != nil {
+		if p := try(func() { l.stop(); l.listen() }); p != "" {
+			return nil, "panic while replacing the listener: " + p
+		}
+		if l.fail != "" {
+			return nil, l.fail
+		}
+	}
 	l.got = l.got[:0]
 	var err error
-	if p := try(func() { err = l.out.Send(msg) }); p != "" {
+	if p := try(func() {
+		if l.n%2 == 0 && l.sendTo != nil {
+			err = l.sendTo(midi.Message(msg))
+		} else {
+			err = l.out.Send(msg)
+		}
+	}); p != "" {
 		return nil, "panic in Send/ListenTo: " + p
 	}
 	if err != nil {
